@@ -89,7 +89,9 @@ func positionContext(l *Input, line, col int) (context string) {
 		}
 	}
 
-	context += fmt.Sprintf("%5d: %s%s%s\n", line, ellipsisFront, string(rs), ellipsisRear)
-	context += fmt.Sprintf("%s^", strings.Repeat(" ", 6+col))
+	// the caret is indented by the width of the printed line number, which is wider than 5 digits from line 100000 on
+	prefix := fmt.Sprintf("%5d: ", line)
+	context += fmt.Sprintf("%s%s%s%s\n", prefix, ellipsisFront, string(rs), ellipsisRear)
+	context += fmt.Sprintf("%s^", strings.Repeat(" ", len(prefix)+col-1))
 	return
 }
